@@ -165,14 +165,118 @@ def shard(args):
     return stats, viol[:100], None
 
 
+
+# ---- load order: permutations of independent template / definition lines give the same codec results ------------------------
+FTYPES = [('UCH', ''), ('SCH', ''), ('D2C', ''), ('UIN', '10'), ('SIN', '-10'), ('ULG', ''), ('D1C', ''), ('BCD', ''), ('STR:3', ''), ('HEX:2', ''),
+          ('BDA', ''), ('BTI', ''), ('UCH', '0=off;1=on;2=auto'), ('FLT', ''), ('PIN', ''), ('BI0:3', ''), ('TTM', ''), ('EXP', '')]
+NB = {'UCH': 1, 'SCH': 1, 'D2C': 2, 'UIN': 2, 'SIN': 2, 'ULG': 4, 'D1C': 1, 'BCD': 1, 'STR:3': 3, 'HEX:2': 2, 'BDA': 4, 'BTI': 3, 'FLT': 2, 'PIN': 2, 'BI0:3': 1, 'TTM': 1, 'EXP': 4}
+
+
+def order_shard(args):
+    from msg_common import build_msg_server, run_server
+    exe, seed, ncases = args
+    rng = random.Random(seed)
+    lines, plan = [], []
+    stats = {'evaluations': 0, 'nontrivial': 0, 'order_cases': 0, 'order_permutations': 0, 'samples': []}
+    for case in range(ncases):
+        # independent template lines (no template refers to another one)
+        tmpls = []
+        for i in range(rng.randrange(3, 7)):
+            typ, dv = rng.choice(FTYPES)
+            tmpls.append(('t%d' % i, typ, dv, 't%d,%s,%s,u%d,tc%d' % (i, typ, dv, i, i)))
+        msgs = []
+        for k in range(rng.randrange(4, 9)):
+            fields, nbytes = [], 0
+            for j in range(rng.randrange(1, 4)):
+                if rng.random() < 0.5:
+                    t = rng.choice(tmpls)
+                    typ, dv, ref = t[1], t[2], t[0]
+                    extra = rng.choice(['', '', '10']) if dv == '' and typ in ('UCH', 'UIN', 'ULG', 'SCH') else ''
+                    fields.append('f%d,,%s,%s,,' % (j, ref, extra))
+                else:
+                    typ, dv = rng.choice(FTYPES)
+                    fields.append('f%d,,%s,%s,,' % (j, typ, dv))
+                nbytes += NB[typ]
+            wr = rng.random() < 0.3
+            line = '%s,oc,m%d,,,08,b509,%s%02x,%s' % ('w' if wr else 'r', k, '0e' if wr else '0d', k, ','.join(fields))
+            data = bytes(rng.choice([rng.randrange(256), 0x01, 0x12, 0x50]) for _ in range(nbytes))
+            msgs.append((k, wr, line, data))
+        perms = [(list(tmpls), list(msgs))]
+        for _ in range(3):
+            a, b = list(tmpls), list(msgs)
+            rng.shuffle(a); rng.shuffle(b)
+            perms.append((a, b))
+        perms.append((list(reversed(tmpls)), list(reversed(msgs))))
+        for pi, (tl, ml) in enumerate(perms):
+            mp = 'o%d_%d' % (case, pi)
+            lines.append('TEMPL\t' + esc('#\n' + '\n'.join(t[3] for t in tl) + '\n'))
+            plan.append(('templ', case, pi, None))
+            lines.append('NEW\t' + mp)
+            plan.append((None, case, pi, None))
+            lines.append('LOAD\t%s\t%s' % (mp, esc('#\n' + '\n'.join(m[2] for m in ml) + '\n')))
+            plan.append(('load', case, pi, len(ml)))
+            for k, wr, line, data in msgs:   # always probed in the canonical order
+                if wr:
+                    master = '3108b509%02x0e%02x%s' % (2 + len(data), k, data.hex())
+                    slave = '00'
+                else:
+                    master = '3108b509020d%02x' % k
+                    slave = '%02x%s' % (len(data), data.hex())
+                lines.append('STORE\t%s\toc\tm%d\t%d\t0\t%s\t%s' % (mp, k, 1 if wr else 0, master, slave))
+                plan.append(('res', case, pi, 'store m%d' % k))
+                for fmt in (0, OF_NAMES | OF_UNITS | OF_COMMENTS):
+                    lines.append('DECODE\t%s\toc\tm%d\t%d\t0\t%d' % (mp, k, 1 if wr else 0, fmt))
+                    plan.append(('res', case, pi, 'decode m%d fmt %d' % (k, fmt)))
+            lines.append('DUMP\t' + mp)
+            plan.append(('dump', case, pi, None))
+            lines.append('DEL\t' + mp)
+            plan.append((None, case, pi, None))
+        stats['order_cases'] += 1
+        stats['order_permutations'] += len(perms)
+    rc, out, err = run_server(exe, lines)
+    viol = []
+    if rc != 0 or len(out) != len(plan):
+        return stats, viol, (rc if rc else -1, 'msg_server output lines %d != expected %d\n' % (len(out), len(plan)) + err[-6000:])
+    base = {}
+    for (kind, case, pi, what), f in zip(plan, out):
+        if kind is None:
+            continue
+        if kind in ('templ', 'load'):
+            if f[1] != '0' or (kind == 'load' and int(f[2]) != what):
+                viol.append(('load-order:load-failed', 'case %d permutation %d: %s -> %s' % (case, pi, kind, f)))
+            continue
+        if kind == 'dump':
+            key = (case, 'dump')
+            got = sorted(unesc(f[1]).split('\n'))
+        else:
+            key = (case, what)
+            got = f
+        stats['evaluations'] += 1
+        if pi == 0:
+            base[key] = got
+            continue
+        stats['nontrivial'] += 1
+        if base.get(key) != got:
+            viol.append(('load-order:%s' % (what.split(' ')[0] if what else 'dump'),
+                         'case %d (seed %d): %s gives %s when the lines are loaded in the written order, %s in permutation %d' % (case, seed, what or 'dump', base.get(key), got, pi)))
+    if not viol and len(stats['samples']) < 1:
+        stats['samples'].append('load order: %d cases x %d permutations agree on every store/decode/dump' % (stats['order_cases'], 5))
+    return stats, viol[:50], None
+
+
 def main():
     c = Check('C12')
     exe = build_harness('asan', 'codec_server', ['codec_server.cpp'])
     nsh = 32 if c.thorough else 16
     nhist, nops, nprobes = (300, 200, 20) if c.thorough else (20, 200, 20)
     tot = {}
+    from msg_common import build_msg_server
+    mexe = build_msg_server()
+    import itertools
     with multiprocessing.Pool(NCPU) as pool:
-        for stats, viol, san in pool.imap_unordered(shard, [(exe, c.seed * 1000 + i, nhist, nops, nprobes) for i in range(nsh)]):
+        jobs = itertools.chain(pool.imap_unordered(shard, [(exe, c.seed * 1000 + i, nhist, nops, nprobes) for i in range(nsh)]),
+                               pool.imap_unordered(order_shard, [(mexe, c.seed * 1000 + 500 + i, 400 if c.thorough else 25) for i in range(16)]))
+        for stats, viol, san in jobs:
             for k, v in stats.items():
                 if isinstance(v, list):
                     tot.setdefault(k, [])
@@ -195,8 +299,12 @@ def main():
         'distinct_nontrivial': int(tot.get('nontrivial', 0)),
         'rule': '%d histories x %d random codec operations (all base types, divisors, ranges, value lists; valid, malformed and '
                 'overflowing inputs such as 1e999) with %d probes each; every probe runs in a pristine forked child and in the history '
-                'process (30%% on a new thread). non-trivial = distinct probe executed after at least one failed operation in the process'
+                'process (30%% on a new thread). non-trivial = distinct probe executed after at least one failed operation in the process; '
+                'plus load order: generated files of 3..6 independent template lines and 4..8 independent definition lines (fields using '
+                'templates with and without extra divisor, and base types) loaded in the written order, 3 random permutations and reversed; '
+                'every store/decode (two formats) and the sorted dump must agree with the written order (non-trivial = comparison in a permuted load)'
                 % (nsh * nhist, nops, nprobes),
+        'load_order_cases': int(tot.get('order_cases', 0)), 'load_order_permutations': int(tot.get('order_permutations', 0)),
         'probes': int(tot.get('probes', 0)), 'probes_after_failed_ops': int(tot.get('failed_ops_before_probe', 0)),
         'thread_probes': int(tot.get('thread_probes', 0)), 'shared_stream_cases': int(tot.get('multi_stream', 0)),
         'samples': tot.get('samples', []),
